@@ -61,6 +61,25 @@ class Evaluator:
         if isinstance(e, (ast.Tuple, ast.List, ast.Set)):
             vals = [self.value(x, code, env) for x in e.elts]
             return None if any(v is None for v in vals) else tuple(vals)
+        if isinstance(e, ast.Subscript):
+            base = self.value(e.value, code, env)
+            if isinstance(base, (str, tuple)):
+                sl = e.slice
+                try:
+                    if isinstance(sl, ast.Slice):
+                        lo = self.value(sl.lower, code, env) if sl.lower is not None else None
+                        hi = self.value(sl.upper, code, env) if sl.upper is not None else None
+                        st = self.value(sl.step, code, env) if sl.step is not None else None
+                        return base[lo:hi:st]
+                    idx = self.value(sl, code, env)
+                    if isinstance(idx, int):
+                        return base[idx]
+                except (TypeError, IndexError, ValueError):
+                    return None
+            return None
+        if isinstance(e, ast.UnaryOp) and isinstance(e.op, ast.USub):
+            v = self.value(e.operand, code, env)
+            return -v if isinstance(v, int) else None
         if isinstance(e, ast.BinOp) and isinstance(e.op, ast.FloorDiv):
             a, b = self.value(e.left, code, env), self.value(e.right, code, env)
             if isinstance(a, int) and isinstance(b, int) and b:
